@@ -248,7 +248,8 @@ pub fn replay(cases: &str, verdicts: &str) {
                             v.check(ok, &format!("Matrix.powf({}) non-integer operands", e), lc, &c, json!(g.as_ref().map(|d| fjs(&d.data))));
                         }
                     }
-                    for k in [-3i32, 5, 17] {
+                    // (the ends of the exponent's range are exponents like any other: x.powi(i32::MIN) is a value, not a panic)
+                    for k in [-3i32, 5, 17, -1024, 1075, i32::MAX, i32::MIN + 1, i32::MIN] {
                         let exp: Vec<f64> = y.iter().map(|t| f64::powi(*t, k)).collect();
                         let g = guard(|| vy.powi(k).to_vec());
                         v.check(g.as_ref().map(|d| same_bits(d, &exp)).unwrap_or(false), &format!("Vector.powi({}) non-integer operands", k), lc, &c, json!(g.as_ref().map(|d| fjs(d))));
@@ -354,9 +355,11 @@ pub fn record(seed: u64, nev: usize, out: &str, maxlen: i64) {
     let mut t = TraceOut::new(out);
     let forms = ["vv", "vs", "sv", "assign_vv", "assign_vs"];
     let ops = ["add", "sub", "mul", "div"];
-    for _ in 0..nev {
-        let n = if rng.below(5) == 0 { rng.range(0, 16) } else { rng.range(0, maxlen) } as usize;
-        let form = forms[rng.below(5) as usize];
+    // a few long operands (the property quantifies over lengths up to 1e4): around 1024, between multiples of 256, 4100, 10000
+    let long = [1024usize, 1025, 1100, 1279, 2049, 4100, 10000, 1030, 1536, 5000];
+    for ev in 0..(nev + long.len()) {
+        let n = if ev >= nev { long[ev - nev] } else if rng.below(5) == 0 { rng.range(0, 16) as usize } else { rng.range(0, maxlen) as usize };
+        let form = if ev >= nev { forms[(ev - nev) % 5] } else { forms[rng.below(5) as usize] };
         let op = ops[rng.below(4) as usize];
         let dr: i64 = if (form == "vv" || form == "assign_vv") && rng.below(6) == 0 { if rng.below(2) == 0 { 1 } else { -1 } } else { 0 };
         let rn = (n as i64 + dr).max(0) as usize;
@@ -365,7 +368,7 @@ pub fn record(seed: u64, nev: usize, out: &str, maxlen: i64) {
         let l: Vec<f64> = (0..n).map(|_| { let x = rng.range(1, 99) as f64; if rng.below(2) == 0 { x } else { -x } }).collect();
         let r: Vec<f64> = (0..rn).map(|_| { let x = rng.range(1, 64) as f64; if rng.below(2) == 0 { x } else { -x } }).collect();
         let s = rng.range(1, 9) as f64;
-        let cont = if n > 0 && rng.below(2) == 0 { "Matrix" } else { "Vector" };
+        let cont = if n > 0 && (rng.below(2) == 0 || ev >= nev + 5) { "Matrix" } else { "Vector" };
         // a random factorisation for the matrix container
         let mut rows = 1;
         if cont == "Matrix" { let divs: Vec<usize> = (1..=n).filter(|d| n % d == 0).collect(); rows = divs[rng.below(divs.len() as u64) as usize]; }
